@@ -300,6 +300,23 @@ func verifC34KnownEqualsPrefix(line []rune) bool {
 			return true
 		}
 	}
+	// a run of `=` at command position (`== ; out `, `===|out `): the tokenizer skips it
+	for i := 0; i < len(line); i++ {
+		if line[i] != '=' || (i > 0 && line[i-1] == '=') {
+			continue
+		}
+		j := i - 1
+		for j >= 0 && (line[j] == ' ' || line[j] == '\t') {
+			j--
+		}
+		if j < 0 {
+			return true
+		}
+		switch line[j] {
+		case ';', '|', '\n', '{', '&', '>', '?':
+			return true
+		}
+	}
 	return false
 }
 
